@@ -71,6 +71,10 @@ def reback(kind, elements, subtype, how, pad=None):
     if how == 'plain' or not elements and how in ('take',):
         return build_array(kind, elements, subtype)
     pad = pad if pad is not None else default_pad(kind)
+    if how == 'head':
+        # zero-copy slice that starts at row 0: offset 0, but the buffers hold more rows than the array
+        big = build_array(kind, list(elements) + [pad, None, pad], subtype)
+        return big[:len(elements)]
     if how == 'slice':
         big = build_array(kind, [pad, None, pad] + list(elements) + [pad], subtype)
         return big[3:3 + len(elements)]
@@ -92,7 +96,7 @@ def reback(kind, elements, subtype, how, pad=None):
     raise ValueError(how)
 
 
-REBACKINGS = ['plain', 'slice', 'slice2', 'take', 'concat', 'pickle']
+REBACKINGS = ['plain', 'head', 'slice', 'slice2', 'take', 'concat', 'pickle']
 
 
 def default_pad(kind):
